@@ -520,7 +520,8 @@ def type_to_pedal_type(expected_type):
 
 
 def value_to_pedal_type(value):
-    if isinstance(unwrap_value(value), Exception):
+    # (SystemExit, the result of a call that ended in sys.exit(), is an error too)
+    if isinstance(unwrap_value(value), BaseException):
         value_pedal_type = "An error"
     else:
         value_pedal_type = get_pedal_type_from_value(unwrap_value(value), evaluate)
